@@ -257,9 +257,14 @@ def cli_case(arg):
             return out
         tables = []
         ths = ["0", "1", "30"] + rng.sample(["0.5", "2", "3", "10", "29", "29.9", "30.5", "31", "100", "-3", "1e9"], 4)
+        # in half of the repositories a sizer.threshold is configured as well: every run below names its threshold by an
+        # option, so the configured value must not matter for which rows are shown
+        cenv = {}
+        if idx % 2 == 1:
+            cenv = {"GIT_CONFIG_COUNT": "1", "GIT_CONFIG_KEY_0": "sizer.threshold", "GIT_CONFIG_VALUE_0": rng.choice(["0", "30", "5", "0.5"])}
         for ts in ths:
-            spell = {"0": ["--verbose"], "1": [], "30": ["--critical"]}.get(ts, ["--threshold=" + ts])
-            r = R.sizer(sz, gitdir, spell + ["--no-progress"], tmpdir=d)
+            spell = {"0": ["--verbose"], "1": rng.choice([["--threshold=1"], ["--no-verbose"]]) if cenv else [], "30": ["--critical"]}.get(ts, ["--threshold=" + ts])
+            r = R.sizer(sz, gitdir, spell + ["--no-progress"], env=cenv, tmpdir=d)
             out["evals"] += 1
             if r.rc:
                 out["viol"].append(("run-failed", {"threshold": ts, "stderr": r.err[-300:]}))
